@@ -8,6 +8,7 @@ import (
 	"crypto/x509/pkix"
 	"encoding/pem"
 	"encoding/xml"
+	"encoding/base64"
 	"fmt"
 	"math/big"
 	"net"
@@ -539,7 +540,14 @@ func step(s *side, bkt string, o op) ([]*s3c.Resp, error) {
 		}
 		return []*s3c.Resp{r}, nil
 	case "btagput":
-		return one(cl.Call("PUT", "/"+bkt, s3c.Q("tagging", ""), nil, s3c.TaggingXML([]s3c.Tag{{Key: "team", Value: fmt.Sprint(o.Seed)}})))
+		tags := []s3c.Tag{{Key: "team", Value: fmt.Sprint(o.Seed)}}
+		if o.Meta%3 == 0 {
+			// a tag under the name the proxy keeps the gateway's bucket ACL in, holding an ACL that makes the first user
+			// the owner: to the endpoint a tag like any other - it must stay one through the proxy
+			acl := fmt.Sprintf(`{"Owner":%q,"Grantees":[{"Permission":"FULL_CONTROL","Access":%q,"Type":"CanonicalUser"}]}`, users[0].Access, users[0].Access)
+			tags = append(tags, s3c.Tag{Key: "versitygwAcl", Value: base64.StdEncoding.EncodeToString([]byte(acl))})
+		}
+		return one(cl.Call("PUT", "/"+bkt, s3c.Q("tagging", ""), nil, s3c.TaggingXML(tags)))
 	case "btagget":
 		return one(cl.Call("GET", "/"+bkt, s3c.Q("tagging", ""), nil, nil))
 	case "btagdel":
@@ -776,6 +784,12 @@ func execA(c caseA) (st stats, err error) {
 			ev.Class("upload-refusal-race-unresolved-large-body")
 			bad = false
 		}
+		if bad && !strict && kf.Open(btagFinding) && strings.HasPrefix(o.Kind, "btag") && len(ans[1]) == 1 && ans[1][0].Status == 501 && ans[1][0].Code == "NotImplemented" {
+			// known finding, exactly this shape: the proxy refuses the bucket tagging call as not implemented. Nothing else
+			// depends on a bucket's tags, so the case goes on (a proxy that answers anything else is compared in full)
+			ev.Known(btagFinding)
+			bad = false
+		}
 		if bad && !strict && kf.Open(aclTagFinding) && o.Kind == "aclput" && len(ans[0]) == 1 && len(ans[1]) == 1 &&
 			ans[0][0].Status == 200 && ans[1][0].Status == 400 && ans[1][0].Code == "InvalidTag" {
 			// known finding, exactly this shape; the two sides now hold different ACLs: nothing further to compare
@@ -880,10 +894,6 @@ func opsGen(thorough bool) *rapid.Generator[[]op] {
 			o.Size = rapid.SampledFrom([]int{0, 1, 100, 4096, 65537, 1 << 20}).Draw(t, "size")
 			o.Meta = rapid.IntRange(0, 13).Draw(t, "meta")
 			o.Who = rapid.SampledFrom([]int{0, 0, 0, 0, 1, 2}).Draw(t, "who")
-			if strings.HasPrefix(o.Kind, "btag") && kf.Open(btagFinding) {
-				ev.Exclude("known finding " + btagFinding + ": bucket tagging operations")
-				o.Kind = "headbucket"
-			}
 			switch o.Kind {
 			case "range":
 				o.Range = rapid.SampledFrom([]string{"bytes=0-0", "bytes=1-50", "bytes=10-", "bytes=99999999-", "bytes=-5", "garbage", "bytes=5-2"}).Draw(t, "range")
